@@ -16,7 +16,7 @@ def run(ctx):
     scns = []
     def add(**kw):
         s = {"sc": len(scns), "id": "Chrome-133", "advertised": [1, 2, 3], "alg": 1, "chain": 0, "flush_every": 0, "flush_num": 0, "flush_den": 0,
-             "level": 6, "decl_delta": 0, "decl_huge": False, "corrupt": "", "drop_ext": False, "zwindow": 0}
+             "level": 6, "decl_delta": 0, "decl_huge": False, "corrupt": "", "drop_ext": False, "zwindow": 0, "client_auth": 0}
         s.update(kw)
         scns.append(s)
     sizes = {1: 0, 2: 20, 3: 70}          # abstract length class -> extra certificates in the chain (~0.5 kB, ~9 kB, ~30 kB)
@@ -50,6 +50,12 @@ def run(ctx):
         for zw in (1 << 20, 1 << 23, 1 << 24, 1 << 25, 1 << 27):
             add(id=i, alg=3, zwindow=zw, flush_every=100, chain=20)
             add(id=i, alg=3, zwindow=zw)
+        # the server also asks for a client certificate: CertificateRequest precedes the compressed certificate in the
+        # transcript, and the client answers with (or without) a certificate of its own
+        for alg in (1, 2, 3):
+            for ca in (1, 2):
+                add(id=i, alg=alg, client_auth=ca)
+                add(id=i, alg=alg, client_auth=ca, chain=20, flush_every=100)
         add(id=i, alg=4, advertised=[1, 2, 3])           # an algorithm nobody advertised or implements
         for alg in (1, 2, 3):
             add(id=i, alg=alg, drop_ext=True)             # extension removed from the hello after it was built (also C12)
